@@ -279,3 +279,55 @@ CELLS.append(Cell('P1.parse_modes', p1_modes, 'P', ['fst.parsex.parse', 'fst.fst
                   f'{len(FRAGS)} fragments x their parse modes vs the sub-tree of the embedding construct parsed by CPython (positions relative to the fragment), '
                   f'{len(ESCAPES)} wrapper-escape / invalid texts which must be rejected (finite tables, solver-enumerated)', budget=600, per_path=60,
                   out='ARBITRARY source text: it must pass through ast.parse (C), no symbolic dimension survives — main clause of C05 not claimed'))
+
+
+# ---------------------------------------------------------------------------------------------------------------- P2
+# every mode of the C19 table, several fragments each, in several layouts; oracle = CPython parse of the construct holding the fragment
+def _layouts(frag, mode):
+    from harness import c19
+    out = [('plain', frag)]
+    bracketed = all('\n)' in c_[0] or '\n]' in c_[0] or '\n ]' in c_[0] or '\n )' in c_[0] for c_ in c19.MODES[mode][0])
+    if bracketed:
+        out.append(('trailing_comment', frag + '  # tc'))
+        out.append(('trailing_newline', frag + '\n'))
+        if '\n' not in frag and ', ' in frag:
+            out.append(('split_after_comma', frag.replace(', ', ',  # k\n    ', 1)))
+    if 'a' in frag and '"' not in frag:
+        out.append(('non_ascii_names', ''.join('é' if ch == 'a' and not (frag[i - 1:i].isalnum() or frag[i + 1:i + 2].isalnum()) else ch for i, ch in enumerate(frag))))
+    if ' = ' in frag or ' + ' in frag or ' | ' in frag:
+        out.append(('wide_spaces', frag.replace(' = ', '   =  ').replace(' + ', '  +   ').replace(' | ', '  |   ')))
+    return out
+
+
+def p2_mode_rows(i: int, lay: int):
+    from harness import c19
+    assume(0 <= i < len(c19.ROWS))
+    frag, mode, _h = c19.ROWS[pc.pin(i, 0, len(c19.ROWS) - 1)]
+    lays = _layouts(frag, mode)
+    assume(0 <= lay < len(lays))
+    lname, text = lays[pc.pin(lay, 0, len(lays) - 1)]
+    with pc.untraced():
+        # the layout must itself be valid for Python in this mode's construct, else it is not a test of pfst
+        ok = False
+        for emb, path, _st, joined in c19.MODES[mode][0]:
+            try:
+                path(ast.parse(emb.format(c19._join(text) if joined else text)))
+                ok = True
+                break
+            except (SyntaxError, IndexError, AttributeError, ValueError):
+                pass
+    assume(ok)
+    try:
+        f = FST(text, mode)
+    except (SyntaxError, ValueError) as ex:
+        fail('parse_mode.valid_fragment_rejected', (mode, lname, text, str(ex)[:150]))
+    with pc.untraced():
+        check(f.src == text, 'parse_mode.source_not_kept', (mode, lname, text, f.src))
+        c19.mode_oracle(f, mode, 'parse_mode', (mode, lname, text))
+    cover('ok')
+
+
+CELLS.append(Cell('P2.mode_rows', p2_mode_rows, 'P', ['fst.parsex.parse', 'fst.fst.FST.__new__'],
+                  'the 89 (fragment, mode) rows of the C19 table (33 distinct modes incl. every special slice) x up to 6 layouts each (plain, trailing comment, trailing newline, split after a comma with a '
+                  'comment, non-ASCII names, wide spacing); the tree must equal CPython\'s parse of the construct holding the fragment incl. relative positions, the source is kept (finite table, solver-enumerated)',
+                  budget=900, per_path=60, out='arbitrary source text (C parser: no symbolic dimension survives)'))
